@@ -18,7 +18,7 @@ RULE = ('(A) Hypothesis token-spelling sequences over the full token alphabet - 
         'single token. (B) raw text over a lexer-biased alphabet: same differential. (C) layout metamorphosis: the token '
         'sequence of a generated whole program rendered with two random layouts (empty separators wherever the reference '
         'says neighbours cannot merge) must lex to the same tokens and compile to the same instruction stream (comment lines '
-        'stripped). Non-trivial: texts with an empty separator between two tokens, a non-decimal integer, an escape, a '
+        'stripped). (D) flavoured twins: every name (ASCII head, tail of ASCII / non-ASCII letters, digits and marks) that lexes as one plain identifier must lex as one identifier of the same base name under either flavour sigil - a self-consistency relation that needs no reference and therefore also covers non-ASCII names. Non-trivial: texts with an empty separator between two tokens, a non-decimal integer, an escape, a '
         'non-ASCII character or a comment directly after a token. Distinct by hash of the text.')
 ASSUMPTIONS = ['reference tokenizer ref/lex.py (README literal forms + tests/test_lexer.py as documentation)',
                'domain: ASCII identifiers; whitespace = space, tab, LF, FF, VT; texts with CR, other control characters or '
@@ -283,8 +283,35 @@ def check_layout(stats, case, seq1, seq2):
     return None
 
 
+def check_twin(stats, name):
+    """Self-consistency of flavoured identifiers: if `name` lexes as exactly one plain identifier spanning the whole
+    text, then `@name` and `!name` are exactly one identifier of that flavour with the same base name and a span over
+    the whole text.  No reference model is involved, so names outside the reference tokenizer's domain (non-ASCII
+    letters and digits) are covered too."""
+    plain = hidc_tokens(name)
+    stats.evaluated()
+    if not (isinstance(plain, list) and len(plain) == 1 and plain[0][0] == 'ident' and plain[0][1] == ('', name)
+            and plain[0][2] == (0, 0, 0, len(name))):
+        raise Discard('not a single plain identifier')
+    if any(ord(c) > 127 for c in name):
+        stats.cls('twin_non_ascii')
+    stats.nt('twin:' + name)
+    for sig in '@!':
+        got = hidc_tokens(sig + name)
+        want = [('ident', (sig, name), (0, 0, 0, len(name) + 1))]
+        if got != want:
+            return ('twin', 'identifier %r lexes as one token, %r lexes as %r (expected %r)' % (name, sig + name, got, want))
+    return None
+
+
+def twin_names():
+    tail = st.one_of(st.sampled_from(list('abzAZ_09')), st.sampled_from(list('äöüßéñøλжかㄱ中٣२０²ªµ')),
+                     st.characters(whitelist_categories=('Ll', 'Lu', 'Lo', 'Lm', 'Nd', 'No', 'Nl', 'Mn', 'Pc')))
+    return st.builds(lambda h, t: h + ''.join(t), st.sampled_from(list('abxyzABZ_')), st.lists(tail, min_size=0, max_size=8))
+
+
 def shards(tier):
-    return [('spelled', k) for k in range(8)] + [('raw', k) for k in range(4)] + [('layout', k) for k in range(4)] + \
+    return [('twin', 0)] + [('spelled', k) for k in range(8)] + [('raw', k) for k in range(4)] + [('layout', k) for k in range(4)] + \
         ([('atheris', k) for k in range(4)] if tier == 'thorough' else [])
 
 
@@ -303,6 +330,14 @@ def run_shard(desc, seed, tier):
                                        'empty @is_you() { write("hi"); /* x */ }']
         for sig, msg, text in campaign('c12', derive_seed(seed, 'C12', kind, k), 400000, seeds, stats, recheck):
             stats.violation({'kind': 'text', 'text': text, 'message': msg, 'signature': sig + ':atheris'})
+        return stats
+    if kind == 'twin':
+        def chk_twin(name):
+            if stats.evaluations % 300 == 0:
+                stats.sample({'kind': 'twin', 'text': name})
+            return check_twin(stats, name)
+        search(twin_names(), chk_twin, seed=derive_seed(seed, 'C12', kind, k), max_examples=2500 if tier == 'quick' else 40000, stats=stats,
+               to_case=lambda v, m: {'kind': 'twin', 'text': v, 'message': m})
         return stats
     if kind in ('spelled', 'raw'):
         strat = spelled_text() if kind == 'spelled' else raw_text()
@@ -333,7 +368,9 @@ def run_shard(desc, seed, tier):
 
 def replay(case):
     try:
-        if case['kind'] == 'text':
+        if case['kind'] == 'twin':
+            r = check_twin(Stats(), case['text'])
+        elif case['kind'] == 'text':
             r = check_text(Stats(), case['text'])
         else:
             from harness.progcase import case_from_json
